@@ -195,11 +195,14 @@ func (db *DB) resolveECPartInMetaBucket(crs *bbolt.Cursor, parent oid.ID, pi iec
 			copy(partPref[1:], id[:])
 		}
 		k, _ = partCrs.Seek(partPref)
+		if pi.Index >= 0 {
+			if !bytes.Equal(k, partPref) { // index must match exactly: "1" is a prefix of "10"
+				continue
+			}
+			return id, nil
+		}
 		if !bytes.HasPrefix(k, partPref) {
 			continue
-		}
-		if pi.Index >= 0 {
-			return id, nil
 		}
 
 		ind, err := strconv.Atoi(string(k[len(partPref):]))
